@@ -19,6 +19,9 @@ pub use candidates::{CandidateValue, Range};
 #[doc(hidden)]
 pub use candidates::verif_hooks as verif_candidates;
 pub use dynamic::DynamicallyResolvedValue;
+#[cfg(feature = "verif")]
+#[doc(hidden)]
+pub use dynamic::verif_hooks as verif_dynamic;
 pub use vertex_info::{RequiredProperty, VertexInfo};
 
 /// Contains overall information about the query being executed, such as its outputs and variables.
